@@ -335,8 +335,11 @@ func c18Flow2Cases() []c18Flow2Case {
 		for _, bp := range bodyPairs {
 			for _, w := range windows {
 				bound := bound
-				if !th && bp != [2]int{1, 1} {
-					bound = 1 // quick: all interleavings with <=2 preemptions for bodies (1,1), <=1 for the longer scripts
+				if bp != [2]int{1, 1} {
+					bound-- // quick: <=2 preemptions for bodies (1,1), <=1 for the longer scripts; thorough: 3 and 2
+				}
+				if bp[1] > 16384 {
+					bound = 1 // multi-frame body: <=1 preemption
 				}
 				ma, mb := int64(bp[0])-int64(w), int64(bp[1])-int64(w)
 				// stream windows missing on both / one stream: every composition for A x every composition for B x every merge
@@ -401,7 +404,7 @@ func TestVerifC18FlowControlTwoStreams(t *testing.T) {
 	p.Note("cases", n)
 	p.Note("cases_all_shards", len(cases))
 	p.End(complete, "two streams (A older, B) on one server connection (MStream.SendResponse x2) and on one client connection (MClientStream.RoundTrip x2); "+
-		map[bool]string{false: "quick: peer initial window 0, bodies (1,1) with <=2 preemptions, (2,1) (1,2) with <=1 preemption", true: "thorough: peer initial window 0/1, bodies (1,1) (2,1) (1,2) (5,5) (7,1) (1,16385), <=3 preemptions"}[vreport.Thorough()]+
+		map[bool]string{false: "quick: peer initial window 0, bodies (1,1) with <=2 preemptions, (2,1) (1,2) with <=1 preemption", true: "thorough: peer initial window 0/1, bodies (1,1) with <=3 preemptions, (2,1) (1,2) (5,5) (7,1) with <=2, (1,16385) with <=1"}[vreport.Thorough()]+
 		"; scripts: every composition of each stream's missing window into <=2 WINDOW_UPDATE increments, every merge of the two streams' updates (either stream first), plus one stream only / nothing / one byte short / an extra connection-level update; plus bodies (32768,32768) with ample stream windows where the connection window (65535) is one byte short, connection-level updates {+1 | none | +1,+1 | stream-level only}, <="+fmt.Sprint(vreport.Pick(1, 2))+" preemptions; 3 threads (sender A, sender B, peer)",
 		"every case x every schedule within the preemption bound on the instrumented package; evaluations = executions; distinct = (case, wire+peer event log); at quiescence a blocked sender with body left, open stream window and open connection window is a lost wake-up")
 }
